@@ -251,7 +251,7 @@ func (ex *Exec) appendSlice(et types.Type, s []Value, add []Value) []Value {
 		return out
 	}
 	size := gcSizes.Sizeof(et)
-	newCap := growCap(len(s), cap(s), newLen, size)
+	newCap := growCap(len(s), cap(s), newLen, size, !hasPointers(et))
 	out := make([]Value, newLen, newCap)
 	for i, v := range s {
 		out[i] = v
@@ -267,13 +267,30 @@ func (ex *Exec) appendSlice(et types.Type, s []Value, add []Value) []Value {
 }
 
 // growCap emulates runtime.growslice's capacity computation (go1.20+).
-func growCap(oldLen, oldCap, newLen int, elemSize int64) int {
+func growCap(oldLen, oldCap, newLen int, elemSize int64, noscan bool) int {
 	newcap := nextslicecap(newLen, oldCap)
 	if elemSize == 0 {
 		return newLen
 	}
-	mem := roundupsize(uintptr(int64(newcap) * elemSize))
+	mem := roundupsize(uintptr(int64(newcap)*elemSize), noscan)
 	return int(int64(mem) / elemSize)
+}
+
+func hasPointers(t types.Type) bool {
+	switch t := t.Underlying().(type) {
+	case *types.Basic:
+		return t.Info()&types.IsString != 0 || t.Kind() == types.UnsafePointer
+	case *types.Array:
+		return t.Len() > 0 && hasPointers(t.Elem())
+	case *types.Struct:
+		for i := 0; i < t.NumFields(); i++ {
+			if hasPointers(t.Field(i).Type()) {
+				return true
+			}
+		}
+		return false
+	}
+	return true
 }
 
 func nextslicecap(newLen, oldCap int) int {
@@ -300,14 +317,18 @@ func nextslicecap(newLen, oldCap int) int {
 
 var classToSize = [...]uint16{0, 8, 16, 24, 32, 48, 64, 80, 96, 112, 128, 144, 160, 176, 192, 208, 224, 240, 256, 288, 320, 352, 384, 416, 448, 480, 512, 576, 640, 704, 768, 896, 1024, 1152, 1280, 1408, 1536, 1792, 2048, 2304, 2688, 3072, 3200, 3456, 4096, 4864, 5376, 6144, 6528, 6784, 6912, 8192, 9472, 9728, 10240, 10880, 12288, 13568, 14336, 16384, 18432, 19072, 20480, 21760, 24576, 27264, 28672, 32768}
 
-func roundupsize(size uintptr) uintptr {
-	if size <= 32768 {
+func roundupsize(size uintptr, noscan bool) uintptr {
+	req := size
+	if req <= 32768-8 {
+		if !noscan && req > 512 {
+			req += 8 // malloc header
+		}
 		for _, c := range classToSize {
-			if uintptr(c) >= size {
-				return uintptr(c)
+			if uintptr(c) >= req {
+				return uintptr(c) - (req - size)
 			}
 		}
 	}
 	const pageSize = 8192
-	return (size + pageSize - 1) &^ (pageSize - 1)
+	return (req + pageSize - 1) &^ (pageSize - 1)
 }
